@@ -110,7 +110,7 @@ impl Check for GrHelper {
         let mut ops = vec![jarr!["up", jarr![cfg_fams, cfg_gr, true, cfg_llgr]]];
         let n = rng.range(4, if thorough { 40 } else { 22 });
         for _ in 0..n {
-            match rng.weighted(&[28, 8, 14, 12, 8, 12, 4, 3]) {
+            match rng.weighted(&[28, 8, 14, 12, 8, 12, 4, 6]) {
                 0 => {
                     let fam = rng.below(2);
                     let spec = gen_rspec(&mut rng, if ebgp { Role::Ebgp } else { Role::Ibgp }, 65001);
@@ -138,7 +138,13 @@ impl Check for GrHelper {
                     ops.push(jarr!["wait", (unit * 1000 * f / 100).max(1)]);
                 }
                 6 => ops.push(jarr!["eor", rng.below(2)]),
-                _ => ops.push(jarr!["enable"]),
+                _ => {
+                    if rng.coin() {
+                        ops.push(jarr!["enable"]);
+                    } else {
+                        ops.push(jarr!["admin", *rng.pick(&["shutdown", "disable", "reset"])]);
+                    }
+                }
             }
         }
         // faults stop: let every timer run out
@@ -392,6 +398,25 @@ async fn run(case: Json, tol: Tolerate) -> Outcome {
                 let _ = silent;
                 just_dropped = Some(kind);
                 out.hit(&format!("fault.session-drop.{}", down_reason_class(just_dropped.as_deref().unwrap())));
+            }
+            "admin" if !m.established && !m.admin_down => {
+                // operator action while the peer is away (restart or LLGR period running): what is
+                // retained must be purged at once, not left behind without a timer
+                let kind = op.at(1).as_str().to_string();
+                match kind.as_str() {
+                    "shutdown" => {
+                        let _ = t.w.grpc.shutdown_peer(tonic::Request::new(api::ShutdownPeerRequest { address: addr.to_string(), ..Default::default() })).await;
+                    }
+                    "disable" => {
+                        let _ = t.w.grpc.disable_peer(tonic::Request::new(api::DisablePeerRequest { address: addr.to_string(), ..Default::default() })).await;
+                        m.admin_down = true;
+                    }
+                    _ => {
+                        let _ = t.w.grpc.reset_peer(tonic::Request::new(api::ResetPeerRequest { address: addr.to_string(), soft: false, ..Default::default() })).await;
+                    }
+                }
+                out.hit(&format!("fault.operator-{}-while-peer-is-away", kind));
+                t.settle().await;
             }
             "enable" => {
                 if m.admin_down {
